@@ -1,4 +1,4 @@
-//go:build verif && verifint
+//go:build verif && vi_pvm_c03_djump
 
 package PVM
 
